@@ -776,7 +776,11 @@ def emit(L):
         w("  else .string v")
     else:
         w("-- gj0BInt NOT translated: %s" % B.get("reason", ""))
-        w("-- (no `bintLit`: Props/C12.lean's bint_literal_fits_int cannot be stated any more)")
+        w("-- (Props/C12.lean's bint_literal_fits_int is not a statement about the source any more; the check reports")
+        w("-- `jmap|gj0BInt|untranslated`.  The placeholder below only keeps the driver, whose other requests do not")
+        w("-- depend on it, buildable; nothing evaluates it.)")
+        w("def bintLitTranslated : Bool := false")
+        w("def bintLit (_ : Int) : BIntLit := .string 0")
     w("")
     w("/-! ## evaluator for the driver -/")
     w("def showS {w : Nat} (x : BitVec w) : String := toString x.toInt")
